@@ -138,3 +138,113 @@ Proof.
     + exfalso. pose proof (split_on_length r). rewrite Es in H. cbn in H. lia.
     + destruct xs as [|y ys]; cbn [join_with] in *; cbn [app]; f_equal; exact IH.
 Qed.
+
+(* ---- []rune(input) line by line: decoding commutes with splitting at newlines ------------------ *)
+Lemma in_byte_range_10 lo hi : 128 <= lo -> in_byte_range lo hi 10 = false.
+Proof. unfold in_byte_range. lia. Qed.
+Lemma is_cont_10 : is_cont 10 = false.
+Proof. reflexivity. Qed.
+
+(* a newline right after [a] can neither complete nor change the first rune of [a] *)
+Lemma decode_rune_before_nl a b : a <> [] -> decode_rune (a ++ 10 :: b) = decode_rune a.
+Proof.
+  destruct a as [|b0 r0]; [congruence|]. intros _. cbn [app decode_rune].
+  destruct (b0 <? 128); [reflexivity|].
+  destruct (lead_class b0) as [[[k lo] hi]|] eqn:El; [|reflexivity].
+  destruct (lead_class_spec _ _ _ _ El) as (Hb0 & Hlo & _).
+  destruct r0 as [|b1 r1]; cbn [app].
+  { rewrite (in_byte_range_10 lo hi Hlo). reflexivity. }
+  destruct (in_byte_range lo hi b1); [|reflexivity].
+  destruct (k =? 2); [reflexivity|].
+  destruct r1 as [|b2 r2]; cbn [app].
+  { rewrite is_cont_10. reflexivity. }
+  destruct (is_cont b2); [|reflexivity].
+  destruct (k =? 3); [reflexivity|].
+  destruct r2 as [|b3 r3]; cbn [app].
+  { rewrite is_cont_10. reflexivity. }
+  reflexivity.
+Qed.
+
+Lemma decode_fuel_irrelevant : forall f1 f2 bs, (length bs <= f1)%nat -> (length bs <= f2)%nat ->
+  utf8_decode_fuel f1 bs = utf8_decode_fuel f2 bs.
+Proof.
+  induction f1 as [|f1 IH]; intros f2 bs H1 H2.
+  - destruct bs; [|cbn in H1; lia]. destruct f2; reflexivity.
+  - destruct f2 as [|f2]; [destruct bs; [reflexivity|cbn in H2; lia]|].
+    cbn [utf8_decode_fuel]. destruct (decode_rune bs) as [[r n]|] eqn:E; [|reflexivity].
+    destruct (decode_rune_nl bs r n E) as [Hn _]. f_equal. apply IH; rewrite skipn_length; lia.
+Qed.
+
+Lemma decode_cons_step bs r n : decode_rune bs = Some (r, n) ->
+  utf8_decode bs = r :: utf8_decode (skipn (N.to_nat n) bs).
+Proof.
+  intros E. destruct (decode_rune_nl bs r n E) as [Hn _].
+  unfold utf8_decode. destruct (length bs) as [|l] eqn:El; [lia|].
+  cbn [utf8_decode_fuel]. rewrite E. f_equal. apply decode_fuel_irrelevant; rewrite skipn_length; lia.
+Qed.
+
+Lemma decode_nil : utf8_decode [] = [].
+Proof. reflexivity. Qed.
+
+Lemma decode_app_nl : forall k a b, (length a <= k)%nat ->
+  utf8_decode (a ++ 10 :: b) = utf8_decode a ++ 10 :: utf8_decode b.
+Proof.
+  induction k as [|k IH]; intros a b Hk.
+  - destruct a; [|cbn in Hk; lia]. cbn [app]. rewrite (decode_cons_step (10 :: b) 10 1 eq_refl). reflexivity.
+  - destruct a as [|a0 ar].
+    + cbn [app]. rewrite (decode_cons_step (10 :: b) 10 1 eq_refl). reflexivity.
+    + destruct (decode_rune (a0 :: ar)) as [[r n]|] eqn:E.
+      * destruct (decode_rune_nl _ r n E) as [Hn _].
+        rewrite (decode_cons_step (a0 :: ar) r n E).
+        assert (E' : decode_rune ((a0 :: ar) ++ 10 :: b) = Some (r, n)).
+        { rewrite decode_rune_before_nl by discriminate. exact E. }
+        rewrite (decode_cons_step _ r n E').
+        rewrite skipn_app. replace (N.to_nat n - length (a0 :: ar))%nat with 0%nat by lia.
+        cbn [skipn]. rewrite IH; [reflexivity|]. rewrite skipn_length. cbn in *. lia.
+      * exfalso. cbn in E. destruct (a0 <? 128); [discriminate|].
+        destruct (lead_class a0) as [[[k0 lo] hi]|]; [|discriminate].
+        destruct ar as [|b1 r1]; [discriminate|]. destruct (in_byte_range lo hi b1); [|discriminate].
+        destruct (k0 =? 2); [discriminate|]. destruct r1 as [|b2 r2]; [discriminate|].
+        destruct (is_cont b2); [|discriminate]. destruct (k0 =? 3); [discriminate|].
+        destruct r2 as [|b3 r3]; [discriminate|]. destruct (is_cont b3); discriminate.
+Qed.
+
+Lemma count_nl_zero_no_nl l : count_nl l = 0%nat -> no_nl l.
+Proof.
+  induction l as [|c r IH]; cbn; [constructor|]. destruct (c =? 10) eqn:E; [discriminate|].
+  intros H. constructor; [lia|]. apply IH. lia.
+Qed.
+Lemma no_nl_count l : no_nl l -> count_nl l = 0%nat.
+Proof. induction 1 as [|c r Hc _ IH]; cbn; [reflexivity|]. replace (c =? 10) with false by lia. exact IH. Qed.
+
+Lemma decode_no_nl a : no_nl a -> no_nl (utf8_decode a).
+Proof.
+  intros H. apply count_nl_zero_no_nl. unfold utf8_decode. rewrite decode_count_nl by lia.
+  apply no_nl_count. exact H.
+Qed.
+
+(* split a text at its first newline *)
+Lemma split_first_nl : forall l, no_nl l \/ exists a b, l = a ++ 10 :: b /\ no_nl a.
+Proof.
+  induction l as [|c r IH]; [left; constructor|].
+  destruct (c =? 10) eqn:E.
+  - right. exists [], r. apply N.eqb_eq in E. subst c. split; [reflexivity|constructor].
+  - destruct IH as [H|(a & b & -> & Ha)].
+    + left. constructor; [lia|exact H].
+    + right. exists (c :: a), b. split; [reflexivity|constructor; [lia|exact Ha]].
+Qed.
+
+Theorem decode_split : forall k bs, (length bs <= k)%nat ->
+  split_on 10 (utf8_decode bs) = map utf8_decode (split_on 10 bs).
+Proof.
+  induction k as [|k IH]; intros bs Hk.
+  - destruct bs; [reflexivity|cbn in Hk; lia].
+  - destruct (split_first_nl bs) as [H|(a & b & -> & Ha)].
+    + rewrite (split_on_no_nl_id bs H), (split_on_no_nl_id _ (decode_no_nl bs H)). reflexivity.
+    + rewrite (decode_app_nl (length a) a b (le_n _)).
+      rewrite (split_on_app_nl a b Ha), (split_on_app_nl _ _ (decode_no_nl a Ha)).
+      cbn [map]. f_equal. apply IH. rewrite app_length in Hk. cbn in Hk. lia.
+Qed.
+
+Theorem decode_lines bs : split_on 10 (utf8_decode bs) = map utf8_decode (split_on 10 bs).
+Proof. apply (decode_split (length bs)). lia. Qed.
